@@ -8,7 +8,7 @@
    the origin's node) is the key fact. *)
 From Coq Require Import ZArith List Bool Lia.
 Import ListNotations.
-From Ygm Require Import Layout Bcast.
+From Ygm Require Import Gen.Gen_layout Layout Bcast.
 Local Open Scope Z_scope.
 
 Lemma zcount_app x a b : zcount x (a ++ b) = (zcount x a + zcount x b)%nat.
@@ -151,3 +151,124 @@ Proof.
   destruct (remote_partners_shape n p r r2 Hn Hp Rr Hr2) as (Rr2 & _).
   apply (LR (znode p r2) y (node_lt n p r2 Hp Rr2) Hy2).
 Qed.
+
+(* ---------------------------------------------------------------------- *)
+(* The same for any uniform placement of the ranks on the nodes (block, round-robin, ...): the fan-out is the block
+   fan-out transported along the renumbering  block rank a * p + l  |->  rk a l, which is a bijection of [0, n p). *)
+Section PlacedCover.
+  Variables n p : Z.
+  Variable rk : Z -> Z -> Z.
+  Variables nd lc : Z -> Z.
+  Hypothesis Hn : 0 < n.
+  Hypothesis Hp : 0 < p.
+  Hypothesis Hpl : placement_ok n p rk nd lc.
+
+  Definition to_pl (r : Z) : Z := rk (znode p r) (zloc p r).
+  Definition of_pl (r : Z) : Z := nd r * p + lc r.
+
+  Lemma to_pl_nl a l : 0 <= l < p -> to_pl (a * p + l) = rk a l.
+  Proof. intros Hl. unfold to_pl. rewrite node_of_nl, loc_of_nl by assumption. reflexivity. Qed.
+
+  Lemma to_pl_facts r : 0 <= r < n * p -> 0 <= to_pl r < n * p /\ nd (to_pl r) = znode p r /\ lc (to_pl r) = zloc p r.
+  Proof.
+    intros Hr. destruct Hpl as (Hfwd & _). unfold to_pl.
+    apply Hfwd; [apply node_lt; assumption | apply loc_lt; assumption].
+  Qed.
+
+  Lemma of_to r : 0 <= r < n * p -> of_pl (to_pl r) = r.
+  Proof.
+    intros Hr. destruct (to_pl_facts r Hr) as (_ & E1 & E2). unfold of_pl. rewrite E1, E2.
+    unfold znode, zloc. pose proof (Z.div_mod r p ltac:(lia)). lia.
+  Qed.
+
+  Lemma to_of r : 0 <= r < n * p -> to_pl (of_pl r) = r /\ 0 <= of_pl r < n * p.
+  Proof.
+    intros Hr. destruct Hpl as (_ & Hbwd). destruct (Hbwd r Hr) as (Ha & Hl & E). unfold of_pl.
+    split; [rewrite to_pl_nl by assumption; exact E | nia].
+  Qed.
+
+  Lemma to_pl_eqb x y : 0 <= x < n * p -> 0 <= y < n * p -> (to_pl x =? to_pl y) = (x =? y).
+  Proof.
+    intros Hx Hy. destruct (Z.eqb_spec x y) as [->|Hne]; [apply Z.eqb_refl|].
+    apply Z.eqb_neq. intros E. apply Hne. rewrite <- (of_to x Hx), <- (of_to y Hy), E. reflexivity.
+  Qed.
+
+  Lemma zcount_map_to_pl x l : 0 <= x < n * p -> (forall y, In y l -> 0 <= y < n * p) ->
+    zcount (to_pl x) (map to_pl l) = zcount x l.
+  Proof.
+    intros Hx. induction l as [|y l IH]; intros Hl; cbn; [reflexivity|].
+    rewrite (to_pl_eqb x y Hx (Hl y (or_introl eq_refl))). f_equal. apply IH. intros z Hz. apply Hl. right. exact Hz.
+  Qed.
+
+  (* the ranks of one node, as ygm::detail::layout::local_ranks() lists them *)
+  Definition local_ranks_placed (a : Z) : list Z := map (fun l => rk a (Z.of_nat l)) (seq 0 (Z.to_nat p)).
+
+  Lemma local_ranks_is_table me : local_ranks_placed (nd me) = m_local_ranks (placed_layout n p rk nd lc me).
+  Proof. reflexivity. Qed.
+
+  Definition bcast_execs_placed (o : Z) : list Z :=
+    let s1 := local_ranks_placed (nd o) in
+    s1 ++ concat (map (fun r =>
+        let s2 := remote_partners_placed n p rk nd lc r in
+        s2 ++ concat (map (fun r2 => filter (fun d => negb (d =? r2)) (local_ranks_placed (nd r2))) s2)) s1).
+
+  Lemma local_ranks_transport a : local_ranks_placed a = map to_pl (local_ranks_of p a).
+  Proof.
+    unfold local_ranks_placed, local_ranks_of. rewrite map_map. apply map_ext_in. intros i Hi. apply in_seq in Hi.
+    rewrite to_pl_nl by lia. reflexivity.
+  Qed.
+
+  Lemma remote_partners_transport r : 0 <= r < n * p ->
+    remote_partners_placed n p rk nd lc (to_pl r) = map to_pl (remote_partners_spec n p r).
+  Proof.
+    intros Hr. destruct (to_pl_facts r Hr) as (_ & E1 & E2).
+    unfold remote_partners_placed, remote_partners_spec. cbv zeta. rewrite E1, E2.
+    destruct (_ <? n); [|reflexivity]. rewrite map_map. apply map_ext. intros b.
+    rewrite to_pl_nl by (apply loc_lt; assumption). reflexivity.
+  Qed.
+
+  Lemma filter_transport r2 l : 0 <= r2 < n * p -> (forall d, In d l -> 0 <= d < n * p) ->
+    filter (fun d => negb (d =? to_pl r2)) (map to_pl l) = map to_pl (filter (fun d => negb (d =? r2)) l).
+  Proof.
+    intros Hr2. induction l as [|d l IH]; intros Hl; cbn; [reflexivity|].
+    rewrite (to_pl_eqb d r2 (Hl d (or_introl eq_refl)) Hr2).
+    destruct (d =? r2); cbn; [|f_equal]; apply IH; intros z Hz; apply Hl; right; exact Hz.
+  Qed.
+
+  Lemma concat_map_map {A} (f : Z -> Z) (G : A -> list Z) l : map f (concat (map G l)) = concat (map (fun x => map f (G x)) l).
+  Proof. rewrite concat_map, map_map. reflexivity. Qed.
+
+  Theorem bcast_execs_transport o : 0 <= o < n * p -> bcast_execs_placed (to_pl o) = map to_pl (bcast_execs n p o).
+  Proof.
+    intros Ho. destruct (to_pl_facts o Ho) as (_ & E1 & _).
+    pose proof (node_lt n p o Hp Ho) as Ha0.
+    assert (LR : forall a z, 0 <= a < n -> In z (local_ranks_of p a) -> 0 <= z < n * p).
+    { intros a z Ha Hz. apply (local_ranks_In p a z Hp) in Hz as (l & Hl & ->). apply nl_lt; assumption. }
+    unfold bcast_execs_placed, bcast_execs. cbv zeta. rewrite E1.
+    rewrite map_app. f_equal; [apply local_ranks_transport|].
+    rewrite concat_map_map. rewrite local_ranks_transport, map_map. f_equal. apply map_ext_in. intros r Hr.
+    pose proof (LR _ r Ha0 Hr) as Rr.
+    rewrite map_app. rewrite (remote_partners_transport r Rr). f_equal.
+    rewrite concat_map_map, map_map. f_equal. apply map_ext_in. intros r2 Hr2.
+    destruct (remote_partners_shape n p r r2 Hn Hp Rr Hr2) as (Rr2 & _).
+    destruct (to_pl_facts r2 Rr2) as (_ & F1 & _). rewrite F1.
+    rewrite local_ranks_transport. apply filter_transport; [exact Rr2|].
+    intros d Hd. apply (LR (znode p r2) d (node_lt n p r2 Hp Rr2) Hd).
+  Qed.
+
+  (* every rank of the communicator runs the broadcast function exactly once, whatever the placement *)
+  Theorem bcast_placed_covers_every_rank_once o x :
+    0 <= o < n * p -> 0 <= x < n * p -> zcount x (bcast_execs_placed o) = 1%nat.
+  Proof.
+    intros Ho Hx. destruct (to_of o Ho) as (Eo & Ro). destruct (to_of x Hx) as (Ex & Rx).
+    rewrite <- Eo, <- Ex. rewrite (bcast_execs_transport (of_pl o) Ro).
+    rewrite zcount_map_to_pl; [apply bcast_covers_every_rank_once; assumption | exact Rx|].
+    intros y Hy. apply (bcast_execs_in_range n p (of_pl o) y Hn Hp Ro Hy).
+  Qed.
+
+  Theorem bcast_placed_execs_in_range o y : 0 <= o < n * p -> In y (bcast_execs_placed o) -> 0 <= y < n * p.
+  Proof.
+    intros Ho Hy. destruct (to_of o Ho) as (Eo & Ro). rewrite <- Eo in Hy. rewrite (bcast_execs_transport (of_pl o) Ro) in Hy.
+    apply in_map_iff in Hy as (z & <- & Hz). apply to_pl_facts. apply (bcast_execs_in_range n p (of_pl o) z Hn Hp Ro Hz).
+  Qed.
+End PlacedCover.
